@@ -39,7 +39,7 @@ def plan(tier, seed):
 
 def mandatory_bins(tier):
     b = ["tagtype_%02x" % t for t in R.TAGTYPES] + ["ignored_%02x" % t for t in R.IGNORED]
-    b += ["fmt_blob", "fmt_bf2compatible", "fmt_memoryimage", "page_crossing", "group_per_page", "one_group_all_pages", "debug_firmware", "release_firmware", "no_firmware_comment",
+    b += ["fmt_blob", "fmt_bf2compatible", "fmt_memoryimage", "page_crossing", "group_per_page", "one_group_all_pages", "markers_page_start_only", "markers_extra_start", "markers_no_start", "debug_firmware", "release_firmware", "no_firmware_comment",
           "multi_group_filter", "special_case_filter", "crc", "reboot", "versiondesc", "line_checksum_byte", "enforce_off_without_marker", "filter_comment_checked", "five_sections", "image_ge_64k", "source_is_a_file_name", "stream_positioned_after_other_content", "zero_length_data_line_inside_data", "instruction_separator_tab", "instruction_separator_several_blanks", "last_page_of_a_tag_type_range", "crc_value_without_leading_zeros_or_lower_case", "firmware_name_with_blanks_or_short"]
     b += ["reject:" + c for c in REJECT_CLASSES] + ["mem_gap_before_last_line", "mem_many_extents"]
     return b
@@ -127,6 +127,11 @@ def gen_section(rng, ctx, base, big=False):
         if rng.random() < 0.5:
             sec.crc = crc = rng.choice((0x12ABCD, 0x2ABCD, 0xFF, 0x0, 0x1000000, rng.getrandbits(rng.randrange(1, 29))))
         ctx.bin("crc_value_without_leading_zeros_or_lower_case")
+    if rng.random() < 0.2:
+        # start / end marker lines placed other than as one FE..FF pair per group: the data lines are the same, so is the component
+        sec.marker_style = rng.choice(("page_start_only", "extra_start", "no_start"))
+        if sec.marker_style != "page_start_only" or any((a >> 16) != (lines[0][0] >> 16) for a, _ in lines):
+            ctx.bin("markers_" + sec.marker_style)
     r = rng.random()
     if r < 0.3:
         sec.sep = rng.choice(("\t", "  ", " \t", "\t\t ", "   "))
